@@ -63,7 +63,7 @@ def sub_models(n_cov):
     return out
 
 
-def mixed_frame(rng, n=None, outcome='binary', missing=None, n_cont=None, n_cat=None):
+def mixed_frame(rng, n=None, outcome='binary', missing=None, n_cont=None, n_cat=None, extreme=False):
     """continuous + categorical predictors, non-saturated models (logistic MLE exists with overwhelming
     probability: moderate coefficients, n >= 60).  Columns W0.. (continuous), C0.. (binary/ternary), A, Y."""
     n = n or rng.randint(60, 160)
@@ -79,7 +79,15 @@ def mixed_frame(rng, n=None, outcome='binary', missing=None, n_cont=None, n_cat=
         d['C%d' % i] = rs.randint(0, rng.choice([2, 3]), size=n)
         lin += rng.uniform(-0.5, 0.5) * d['C%d' % i]
     df = pd.DataFrame(d)
-    df['A'] = rs.binomial(1, 1 / (1 + np.exp(-(lin * 0.8 + rng.uniform(-0.3, 0.3)))))
+    if extreme:
+        # near-violation of positivity: a strong continuous confounder, fitted Pr(A=1|W) down to 1e-6 .. 1e-9 in the tail
+        df['A'] = rs.binomial(1, 1 / (1 + np.exp(-(rng.uniform(3.0, 5.0) * d['W0'] + rng.uniform(-0.3, 0.3)))))
+        k = np.argsort(d['W0'])
+        df.loc[k[:3], 'A'] = 0
+        df.loc[k[-3:], 'A'] = 1
+        df.loc[k[len(k) // 2 - 2:len(k) // 2 + 2], 'A'] = [0, 1, 1, 0]      # overlap in the middle: the MLE exists
+    else:
+        df['A'] = rs.binomial(1, 1 / (1 + np.exp(-(lin * 0.8 + rng.uniform(-0.3, 0.3)))))
     ylin = 0.7 * lin + rng.uniform(-0.5, 0.9) * df['A'] + rng.uniform(-0.4, 0.4)
     if outcome == 'binary':
         df['Y'] = rs.binomial(1, 1 / (1 + np.exp(-ylin))).astype(float)
@@ -116,4 +124,6 @@ def reindex(df, rng, kind=None):
         df.index = ['id%03d' % i for i in range(n)]
     elif kind == 'dup':
         df.index = [i // 2 for i in range(n)]
+    elif kind == 'gappy':       # a subset of a larger cohort: increasing labels with gaps, mostly >= n
+        df.index = sorted(rng.sample(range(3 * n), n))
     return df, kind
